@@ -41,6 +41,9 @@ func init() {
 			{Name: "cuts", N: constN(3000, 100000), Gen: genModelCase, Eval: c08EvalCuts},
 			{Name: "names", Stream: c08StreamNames, Eval: c08EvalName},
 			{Name: "targets", N: constN(400, 6000), Gen: c08GenTarget, Eval: c08EvalTarget},
+			{Name: "shared-file", N: constN(1200, 40000), Gen: func(r *xrand.Rand, idx int, tier string) *fw.Case {
+				return &fw.Case{Docs: []run.Doc{{}}}
+			}, Eval: c08EvalShared},
 		},
 		Floors: map[string]int64{"cuts_compared": 1500, "names_checked": 15000},
 		Post:   c08Post,
@@ -550,4 +553,105 @@ func c08Post(d *fw.Driver) {
 		d.AddInconclusive("strace log shows no open call: observer not working")
 	}
 	d.Distinct("opens-run")
+}
+
+
+// ---- one file included from several places ----
+
+// c08EvalShared: two to four hosts (URL blocks, path-bearing methods, JSON-RPC methods) have the same run of children;
+// the run is written once in a file that every host includes, and compared with the text written in place in each host.
+func c08EvalShared(t *fw.T, c *fw.Case) {
+	r := xrand.Derive(t.Seed, c.Index, "C08", "shared")
+	type snip struct{ level, text string }
+	urlKids := []string{
+		"GET\n  Path\n  {\n    \"id\": 1\n  }\n  200 any\n",
+		"GET\n  200 any\nPOST\n  Request any\n  201 any\n",
+		"DELETE\n  Description\n    removes it\n  204 empty\n",
+		"Path\n{\n  \"id\": 7 // the id\n}\n",
+		"GET\n  Query\n  {\"q\": 1}\n  200\n  {\"ok\": true}\n",
+	}
+	methodKids := []string{
+		"200 any\n404 any\n",
+		"Path\n{\n  \"id\": 1\n}\n200 any\n",
+		"Description\n  shared text\n200 any\n",
+		"Request\n  Headers\n  {\"h\": \"v\"}\n  Body any\n200\n  Headers\n  {\"x\": 1}\n  Body any\n",
+		"Query\n{\"q\": 1}\n200 @sharedT\n",
+	}
+	rpcKids := []string{"Params\n{\"p\": 1}\nResult\n{\"r\": 2}\n", "Description\n  shared text\nParams\n[1]\n"}
+	n := r.Range(2, 4)
+	kind := r.Intn(3)
+	var body string
+	switch kind {
+	case 0:
+		body = urlKids[r.Intn(len(urlKids))]
+	case 1:
+		body = methodKids[r.Intn(len(methodKids))]
+	default:
+		body = rpcKids[r.Intn(len(rpcKids))]
+	}
+	indent := func(text, pad string) string {
+		var sb strings.Builder
+		for _, l := range strings.Split(strings.TrimRight(text, "\n"), "\n") {
+			sb.WriteString(pad + l + "\n")
+		}
+		return sb.String()
+	}
+	dir := []string{"", "parts/", "a/b/"}[r.Intn(3)]
+	var whole, cut strings.Builder
+	whole.WriteString("JSIGHT 0.3\nTYPE @sharedT any\n")
+	cut.WriteString("JSIGHT 0.3\nTYPE @sharedT any\n")
+	verbs := []string{"GET", "POST", "PUT", "PATCH"}
+	for i := 0; i < n; i++ {
+		var head, pad string
+		switch kind {
+		case 0:
+			head, pad = fmt.Sprintf("URL /h%d/{id}\n", i), "  "
+			if r.Chance(1, 3) {
+				head = fmt.Sprintf("URL /shared/{id}/s%d\n", i) // the hosts share the parameterised prefix
+			}
+		case 1:
+			head, pad = fmt.Sprintf("%s /m/{id}/x%d\n", verbs[i%4], i/4), "  "
+			if r.Chance(1, 3) {
+				head = fmt.Sprintf("%s /same/{id}\n", verbs[i%4])
+			}
+		default:
+			head, pad = fmt.Sprintf("URL /rpc%d\n  Protocol json-rpc-2.0\n  Method m%d\n", i, i), "    "
+		}
+		whole.WriteString(head + indent(body, pad))
+		inc := "INCLUDE " + dir + "shared.jst"
+		if r.Bool() {
+			inc = "INCLUDE \"" + dir + "shared.jst\""
+		}
+		cut.WriteString(head + pad + inc + "\n")
+	}
+	nl := []string{"\n", "\n", "\r\n", "\r"}[r.Intn(4)]
+	conv := func(x string) []byte { return []byte(strings.ReplaceAll(x, "\n", nl)) }
+	dw := run.Single(conv(whole.String()))
+	dw.FixedSeed = true
+	dc := run.Doc{Files: map[string][]byte{"root.jst": conv(cut.String()), dir + "shared.jst": conv(indent(body, []string{"", "  ", "\t"}[r.Intn(3)]))}, Root: "root.jst", FixedSeed: true}
+	c.Docs = []run.Doc{dc, dw}
+	oc, ow := t.Exec(dc), t.Exec(dw)
+	t.Count("cuts_compared")
+	t.Count("shared_file_projects_compared")
+	if oc.Outcome == run.Panic || oc.Outcome == run.Budget {
+		t.Violation("cut-form-crashes:"+outcomeSig(oc), fmt.Sprintf("the cut project %s: %s", oc.Outcome, oc.PanicVal))
+		return
+	}
+	if oc.Outcome != ow.Outcome {
+		t.Violation("verdict-differs:"+oc.Outcome+"-vs-"+ow.Outcome+":"+rejMsg(oc, ow), fmt.Sprintf("one file included from %d places: %s\nthe same text written in place: %s\n--- root\n%s--- shared.jst\n%s", n, describe(oc), describe(ow), cut.String(), body))
+		return
+	}
+	if oc.Outcome == run.Accepted && !bytes.Equal(oc.JSON, ow.JSON) {
+		cls, where := "?", ""
+		a, e1 := jsonx.Parse(oc.JSON)
+		b, e2 := jsonx.Parse(ow.JSON)
+		if e1 == nil && e2 == nil {
+			where = jsonx.Diff(a.Root, b.Root, "$")
+			cls = diffClass(where)
+		}
+		t.Violation("catalog-differs:"+cls, fmt.Sprintf("one file included from %d places differs from the text written in place: %s\n--- root\n%s--- shared.jst\n%s", n, where, cut.String(), body))
+		return
+	}
+	t.Count("shared_" + oc.Outcome)
+	t.Distinct(fmt.Sprintf("shared kind%d n%d %s", kind, n, oc.Outcome))
 }
